@@ -6,6 +6,7 @@ from pathlib import Path
 from ..core import Prop, Suite
 from ..suites_hist import Histories, history_oracle
 from ..suites_chain import K, P
+from .c13_sharing import SharedByLocation
 
 
 def multi_oracle(case, obs):
@@ -525,7 +526,7 @@ class NameModeMembers(Suite):
 
 class C13(Prop):
     pid = 'C13'
-    suites = [Multi(), ObjectUses(), DataDirs(), ForceForms(), NameModeMembers(), PatternMembers()]
+    suites = [Multi(), ObjectUses(), DataDirs(), SharedByLocation(), ForceForms(), NameModeMembers(), PatternMembers()]
     assumptions = ['config names within one MultiChain are distinct (the constructor asserts it)']
 
 
